@@ -9,10 +9,17 @@ Leg 2 (engine B): the real ``ConnectionHandler.handle_client`` is run in memory 
 sets ``client.error`` the writer must be closed, nothing may be read from the client and no event (not even Start)
 may reach the layer; otherwise the layer must see Start.
 Random addresses (uniform, near boundaries, inside blocks) extend both legs.
+Leg 3 (option histories): a fresh real ``Block`` addon registered with the addon manager of a ``taddons.context`` goes
+through multi-step histories of *separate* option updates (block_global alone, block_private alone, both in one update,
+redundant updates, ``--set`` style specs, attribute assignment, reset), the ``configure`` hook being delivered by the
+real OptManager/AddonManager with exactly the updated keys.  After every step a sweep of source addresses of every class
+and notation is judged by the same oracle against the CURRENT option values.  All histories of up to 3 steps over the 8
+update kinds are enumerated in both tiers; longer random ones follow.
 """
 import asyncio
 import logging
 
+from mitmproxy import ctx as mitmproxy_ctx
 from mitmproxy.addons import block
 from mitmproxy.connection import Client
 from mitmproxy.connection import ConnectionState
@@ -31,12 +38,17 @@ TECHNIQUE = "boundary enumeration of the IANA special-purpose registries against
 BUDGET = {"quick": (6_000, 14), "thorough": (400_000, 150)}
 WORKERS = {"quick": 2, "thorough": 16}
 REQUIRED = ["hook.loopback_not_refused", "hook.localmode_not_refused", "hook.global_decided", "hook.private_decided",
-            "hook.off_not_refused", "hook.refused_some", "handler.refused_closed_before_start", "handler.accepted_started"]
+            "hook.off_not_refused", "hook.refused_some", "handler.refused_closed_before_start", "handler.accepted_started",
+            "history.steps", "history.private_decided", "history.global_decided", "history.off_not_refused", "history.refused_some"]
 RULE = (
     "case = (source address, notation, block_global, block_private, proxy mode); every registry block contributes its "
     "first/last/previous/next address (plus IPv4-mapped twins) in 4-5 notations x 4 option settings x 13 modes (split over "
     "workers, fully enumerated in both tiers), then random addresses (uniform v4/v6, inside 2000::/3, inside/adjacent to "
-    "registry blocks); distinct = distinct (registry block or 'outside', position, notation, options, mode type, leg); "
+    "registry blocks); option histories: every sequence of <=3 separate updates over {block_global=T/F, block_private=T/F, both "
+    "in one update (4 value pairs)} on a fresh addon (584 histories, split over workers) plus random histories of 4-8 steps using "
+    "update / --set spec / attribute assignment / reset, each step followed by a sweep of 15 source addresses x 3 modes; "
+    "distinct = distinct (registry block or 'outside', position, notation, options, mode type, leg) resp. (history of update "
+    "kinds); "
     "non-trivial = at least one option is on and the reference decides the outcome (loopback / RFC1918+ULA / definitely "
     "global / local mode)"
 )
@@ -157,6 +169,87 @@ def hook_eval(ctx, w, text, ver_is6, klass, blockname, notation, mode, bg, bp):
         ctx.violation(f"hook:{kind}:{klass}", {**wit, "client_error": client.error},
                       mechanism=classify(klass, blockname, notation, is_local, bg, bp, refused))
     return refused
+
+
+# ---- leg 3: option histories ----------------------------------------------------------------------------------------
+
+STEP_KINDS = [("bg", True), ("bg", False), ("bp", True), ("bp", False),
+              ("both", (True, True)), ("both", (True, False)), ("both", (False, True)), ("both", (False, False))]
+HIST_SOURCES = [(4, "8.8.8.8"), (4, "1.1.1.1"), (6, "2001:4860:4860::8888"), (4, "10.0.0.1"), (4, "172.20.0.1"), (4, "192.168.1.1"),
+                (6, "fd12:3456:789a::1"), (4, "127.0.0.1"), (6, "::1"), (4, "169.254.1.1"), (6, "fe80::1"), (4, "100.64.0.1")]
+HIST_MODES = ["regular", "reverse:https://example.com", "local"]
+
+
+def hist_sources():
+    """[(text, is6, klass, block name, notation)] : plain + mapped + scoped forms of HIST_SOURCES"""
+    out = []
+    for ver, t in HIST_SOURCES:
+        n = ref._p4(t) if ver == 4 else ref._p6(t)
+        nots = notations(ver, n)
+        keep = {"v4", "mapped", "mapped%eth0"} if ver == 4 else {"v6", "v6%eth0"}
+        for notation, text, (klass, bname) in nots:
+            if notation in keep and (notation in ("v4", "v6") or t in ("8.8.8.8", "192.168.1.1", "127.0.0.1", "fd12:3456:789a::1")):
+                out.append((text, notation != "v4", klass, bname, notation))
+    return out
+
+
+def run_option_history(ctx, w_modes, sources, steps, routes):
+    """steps: [(kind, value)], routes: per step 'update' | 'set-spec' | 'setattr' ; -> signature outcome"""
+    ar = block.Block()
+    with taddons.context(ar) as tctx:
+        opts = tctx.options
+        cur = {"block_global": True, "block_private": False}  # documented defaults
+        if (opts.block_global, opts.block_private) != (True, False):
+            ctx.violation("history:defaults-differ", {"block_global": opts.block_global, "block_private": opts.block_private})
+        log = []
+        for (kind, val), route in zip(steps, routes):
+            if kind == "reset":
+                opts.reset()
+                cur = {"block_global": True, "block_private": False}
+            else:
+                upd = {"block_global": val} if kind == "bg" else {"block_private": val} if kind == "bp" else \
+                    {"block_global": val[0], "block_private": val[1]}
+                if route == "set-spec":  # what --set / the console :set command do
+                    opts.set(*[f"{k}={'true' if v else 'false'}" for k, v in upd.items()])
+                elif route == "setattr":
+                    for k, v in upd.items():
+                        setattr(opts, k, v)
+                else:
+                    opts.update(**upd)
+                cur.update(upd)
+            log.append((kind, val, route))
+            bg, bp = cur["block_global"], cur["block_private"]
+            if (opts.block_global, opts.block_private) != (bg, bp):
+                ctx.violation("history:option-values-differ", {"history": log, "expected": cur, "block_global": opts.block_global,
+                                                                "block_private": opts.block_private})
+                return "options-differ"
+            ctx.count("history.steps")
+            for text, is6, klass, bname, notation in sources:
+                for mode in HIST_MODES:
+                    peer = (text, 51234, 0, 0) if is6 else (text, 51234)
+                    client = Client(peername=peer, sockname=("192.0.2.99", 8080), timestamp_start=1.0, state=ConnectionState.OPEN,
+                                    proxy_mode=w_modes[mode])
+                    wit = {"peername": text, "mode": mode, "block_global": bg, "block_private": bp, "ref_class": klass,
+                           "option_history": [list(x) for x in log]}
+                    try:
+                        ar.client_connected(client)
+                    except Exception as e:
+                        ctx.violation("history:hook-raises", {**wit, "exc": repr(e)})
+                        continue
+                    refused = bool(client.error)
+                    exp = expected(klass, mode.startswith("local"), bg, bp)
+                    if refused:
+                        ctx.count("history.refused_some")
+                    if not mode.startswith("local") and klass != ref.LOOPBACK:
+                        if not bg and not bp:
+                            ctx.count("history.off_not_refused")
+                        elif klass == ref.PRIVATE:
+                            ctx.count("history.private_decided")
+                        elif klass == ref.GLOBAL:
+                            ctx.count("history.global_decided")
+                    if exp is not None and refused != exp:
+                        ctx.violation(f"history:{'not-refused' if exp else 'refused-wrongly'}:{klass}", {**wit, "client_error": client.error})
+    return "ok"
 
 
 # ---- leg 2: real handle_client -----------------------------------------------------------------------------------
@@ -293,8 +386,34 @@ def run(ctx):
             for notation, text, (klass, bname) in notations(ver, n):
                 items.append((ver, n, name, pos, notation, text, klass, bname))
         n_enum = len(items)
-        for i in ctx.cases(n=n_enum + ctx.n_cases):
+        import itertools
+        histories = [h for n in (1, 2, 3) for h in itertools.product(range(len(STEP_KINDS)), repeat=n)]
+        n_hist = len(histories)
+        sources = hist_sources()
+        p_rand_hist = 0.01
+        for i in ctx.cases(n=n_enum + n_hist + ctx.n_cases):
             r = ctx.rng
+            hist = None
+            if n_enum <= i < n_enum + n_hist:
+                if i % ctx.nworkers != ctx.worker and ctx.only_case is None:
+                    continue
+                steps = [STEP_KINDS[k] for k in histories[i - n_enum]]
+                hist = (steps, [r.choice(["update", "update", "set-spec", "setattr"]) for _ in steps])
+            elif i >= n_enum + n_hist and r.random() < p_rand_hist:
+                steps = [r.choice(STEP_KINDS + [("reset", None)]) for _ in range(r.randint(4, 8))]
+                hist = (steps, [r.choice(["update", "set-spec", "setattr"]) for _ in steps])
+            if hist is not None:
+                steps, routes = hist
+                try:
+                    outcome = run_option_history(ctx, w.modes, sources, steps, routes)
+                finally:
+                    # a Master installs itself into the global mitmproxy.ctx; hand it back to the long-lived world
+                    mitmproxy_ctx.master = w.tctx.master
+                    mitmproxy_ctx.options = w.tctx.options
+                ctx.case(("opt-history", tuple(steps), outcome if len(steps) <= 3 else ""), nontrivial=len(steps) >= 2,
+                         sample={"leg": "option-history", "steps": [list(x) for x in steps], "routes": routes, "outcome": outcome}
+                         if i % 101 == 5 else None)
+                continue
             if i < n_enum:
                 if i % ctx.nworkers != ctx.worker and ctx.only_case is None:
                     continue
@@ -330,6 +449,7 @@ def run(ctx):
                      sample={"peername": text, "mode": mode, "block_global": bg, "block_private": bp, "ref_class": klass,
                              "ref_block": bname, "refused": refd})
         ctx.extra["enumerated_boundary_items"] = n_enum
+        ctx.extra["enumerated_option_histories"] = n_hist
         ctx.extra["registry_blocks"] = len(ref.V4_BLOCKS) + len(ref.V6_BLOCKS)
     finally:
         loop.close()
